@@ -191,6 +191,7 @@ def run(ctx):
                 "non-trivial = emission becomes active; distinct by (kind, pre-period, start=-nrd, end status, ender, "
                 "multi-tag, nrd, delay, N, active days)")
     core.lean_stage(ctx, MODULE, FILE, drivers=["drv_emission"])
+    EC.tie_stage(ctx)  # layer 3: the emission methods, translated from the current source, are the model's functions
     cases = EC.build_cases(ctx)
     results = EC.correspond(ctx, cases)
     base_cache = {}
